@@ -112,9 +112,13 @@ def layout(out, ed):
             phys.append((i, ind + "  " + cont[i][1]))
             phys.append((i, ind + "    " + sp[1]))
         elif i in sent:
-            if sent[i] == 1:
+            if sent[i] >= 1:
                 sp = split_first(s)
                 phys.append((i, "!$ " + ind + sp[0] + " &"))
+                if sent[i] == 2:
+                    phys.append((i, ind + "  ! comment between conditional lines"))
+                elif sent[i] == 3:
+                    phys.append((i, ""))
                 phys.append((i, "!$ " + ind + "  & " + sp[1]))
             else:
                 phys.append((i, "!$ " + ind + render.stmt_line(s, indent=False)))
@@ -239,4 +243,5 @@ def split_includes(phys_by_stmt, stmts, incs, base="inc"):
     top = [ab for ab in incs if not any(o != ab and o[0] <= ab[0] and ab[1] <= o[1] for o in incs)]
     nested = [ab for ab in incs if ab not in top]
     main = emit(1, len(stmts), top + nested, "")
+    files["__nested__"] = sorted(names[ab] for ab in nested)
     return main, files
